@@ -72,6 +72,7 @@ func mkRequest(i int) *http.Request {
 	r.Header.Set("Referer", fmt.Sprintf("http://ref/%d", i))
 	r.Header.Set("X-Custom", fmt.Sprintf("custom-%d", i))
 	r.Host = fmt.Sprintf("host%d.example:80%d", i, i)
+	r.Header.Set("X-Verif-N", fmt.Sprint(i))
 	return r
 }
 
@@ -99,6 +100,17 @@ func handlerOf(k, key string, r *http.Request) (func(http.Handler) http.Handler,
 		return hlog.CustomHeaderHandler(key, "X-Custom"), r.Header.Get("X-Custom")
 	case "host":
 		return hlog.HostHandler(key), r.Host
+	case "httpversion":
+		return hlog.HTTPVersionHandler(key), strings.TrimPrefix(r.Proto, "HTTP/")
+	case "requestid":
+		// the id is generated per request: the expected value is what IDFromRequest gives the final handler,
+		// which must also be the response header
+		return hlog.RequestIDHandler(key, "X-Rid"), "<rid>"
+	case "etag":
+		// logged after the inner handlers returned, from the response header the final handler set (quotes removed)
+		return hlog.EtagHandler(key), "<post>etag-" + r.Header.Get("X-Verif-N")
+	case "respheader":
+		return hlog.ResponseHeaderHandler(key, "X-Resp"), "<post>resp-" + r.Header.Get("X-Verif-N")
 	}
 	panic("unknown handler " + k)
 }
@@ -133,9 +145,13 @@ func playIso(sc Script) {
 		base = zerolog.New(s).With().Str("base", "b").Str("pad", strings.Repeat("p", 520)).Logger()
 	}
 	type reqState struct {
-		want [][2]string
-		got  [][2]string
-		n    int
+		want     [][2]string
+		got      [][2]string
+		n        int
+		wantPost [][2]string // the event logged after the chain returned: also what Etag / ResponseHeader handlers add on the way out
+		gotPost  [][2]string
+		nPost    int
+		rid      string
 	}
 	states := make([]*reqState, len(sc.Chains))
 	gs := map[string]*vsched.G{}
@@ -162,6 +178,14 @@ func playIso(sc Script) {
 			mine := &sink{}
 			_ = mine
 			var final http.Handler = http.HandlerFunc(func(w http.ResponseWriter, r *http.Request) {
+				w.Header().Set("Etag", fmt.Sprintf("\"etag-%d\"", i+1))
+				w.Header().Set("X-Resp", fmt.Sprintf("resp-%d", i+1))
+				if id, ok := hlog.IDFromRequest(r); ok {
+					st.rid = id.String()
+					if w.Header().Get("X-Rid") != st.rid {
+						st.rid = "<response header differs: " + w.Header().Get("X-Rid") + ">"
+					}
+				}
 				before := len(s.lines)
 				hlog.FromRequest(r).Log().Msg(fmt.Sprintf("req%d", i+1))
 				s.mu.Lock()
@@ -179,10 +203,39 @@ func playIso(sc Script) {
 				_ = want
 				h = mw(gate(h))
 			}
+			var post [][2]string
 			for k := range chain {
 				_, want := handlerOf(chain[k], fmt.Sprintf("k%d", k+1), r)
+				if strings.HasPrefix(want, "<post>") {
+					// added while unwinding: innermost first
+					post = append([][2]string{{fmt.Sprintf("k%d", k+1), strings.TrimPrefix(want, "<post>")}}, post...)
+					continue
+				}
 				st.want = append(st.want, [2]string{fmt.Sprintf("k%d", k+1), want})
 			}
+			// outermost below NewHandler: logs once more after everything inside has returned
+			inner0 := h
+			h = http.HandlerFunc(func(w http.ResponseWriter, r *http.Request) {
+				inner0.ServeHTTP(w, r)
+				before := len(s.lines)
+				hlog.FromRequest(r).Log().Msg(fmt.Sprintf("post%d", i+1))
+				s.mu.Lock()
+				for _, ln := range s.lines[before:] {
+					if bytes.Contains(ln, []byte(fmt.Sprintf(`"message":"post%d"`, i+1))) {
+						st.gotPost = fieldsOf(ln)
+						st.nPost++
+					}
+				}
+				s.mu.Unlock()
+			})
+			defer func() {
+				for j := range st.want {
+					if st.want[j][1] == "<rid>" {
+						st.want[j][1] = st.rid
+					}
+				}
+				st.wantPost = append(append([][2]string{}, st.want...), post...)
+			}()
 			slot := fmt.Sprintf("%d", i+1)
 			r.Header.Set("X-Verif-Slot", slot)
 			innerMu.Lock()
@@ -234,7 +287,14 @@ func playIso(sc Script) {
 		if !gs[names[i]].Done {
 			done = false
 		}
-		emit(map[string]interface{}{"a": "Req", "r": i + 1, "chain": sc.Chains[i], "got": st.got, "want": st.want, "nevents": st.n})
+		if st.gotPost == nil {
+			st.gotPost = [][2]string{}
+		}
+		if st.wantPost == nil {
+			st.wantPost = [][2]string{}
+		}
+		emit(map[string]interface{}{"a": "Req", "r": i + 1, "chain": sc.Chains[i], "got": st.got, "want": st.want, "nevents": st.n,
+			"gotpost": st.gotPost, "wantpost": st.wantPost, "npost": st.nPost})
 	}
 	before := len(s.lines)
 	base.Log().Msg("base")
